@@ -402,8 +402,15 @@ def match_known(prop: str, signature: Dict[str, Any]) -> Optional[Dict[str, Any]
 
 def write_evidence(prop: str, tier: str, seed: int, coverage: Dict[str, Any], wall: float,
                    violations: int, assumptions: List[str]) -> str:
-    path = os.path.join(VERIF, "evidence", f"{prop}.json")
+    edir = os.environ.get("VERIF_EVIDENCE_DIR")
+    if not edir:
+        # evidence under /verif/evidence describes /repo itself; runs against a scratch copy
+        # (--src, sensitivity suite) must not overwrite it
+        edir = (os.path.join(VERIF, "evidence") if os.path.realpath(SRC) == "/repo/src"
+                else "/tmp/verif_evidence_scratch")
+    path = os.path.join(edir, f"{prop}.json")
     os.makedirs(os.path.dirname(path), exist_ok=True)
+    coverage = dict(coverage, source_tree=SRC)
     doc = {
         "property_id": prop,
         "tier": tier,
